@@ -185,7 +185,55 @@ class Hostile:
         raise ValueError(k)
 
 
+def unreachable_case(case):
+    """the route to one peer is gone (every sendto towards it fails) while another peer is idle: the IKE_SA towards the
+    unreachable peer must still time out within the retransmission budget, and the timers of the other peer's IKE_SA (DPD
+    probe) must still be served"""
+    cfg = c09.mk_cfg(case['cfg'])
+    cfg['dpd'] = 10
+    third = third_cfg(cfg)
+    third['dpd'] = 10
+    s = SM.Sim(cfg, monitors=[SM.NoEscape()], third=third)
+    info = {'classes': ['unreachable-peer:' + case['when']], 'parsed': 1, 'faults': 1, 'max_lines': 0}
+    # the other peer stays silent (its own DPD interval is long), so only the victim's timers can produce traffic with it
+    s.c.conf_dict['conn']['dpd'] = 600
+    s.c.restart()
+    s.run([['acquire', 'a', 0, 1, 'c']] + [['deliver_pair', 'a', 'c', 0]] * 4)
+    if case['when'] == 'handshake':
+        s.apply(['unreachable', 'a', 'b', True])
+        s.apply(['acquire', 'a', 0, 1])
+    else:
+        s.run([['acquire', 'a', 0, 1]] + [['deliver_pair', 'a', 'b', 0]] * 4)
+        s.apply(['unreachable', 'a', 'b', True])
+        # (the IKE_SA towards c is the first established one in the table, the one towards b the second)
+        s.apply([case['when'], 'a', 1] if case['when'] != 'acquire' else ['acquire', 'a', 0, 2])
+    t0 = s.w.clock.t
+    n0 = len(s.w.sent_log)
+    from . import c13
+    horizon = c13.budget() + 12
+    dt = case.get('dt', 1.0)
+    t = 0.0
+    while t < horizon:
+        s.tick(dt, ['tick', dt])
+        for d in list(s.w.inflight):          # a <-> c traffic flows; nothing reaches or leaves b
+            if d.dst in s.b.addrs or d.src in s.b.addrs:
+                s.w.inflight.remove(d)
+        s.flush()
+        t += dt
+    to_b = [q for q in s.a.sas if q.peer_addr in s.b.addrs]
+    if to_b:
+        s.fail('unreachable-peer-ike-sa-never-times-out', f'{t:.0f}s after the route to a peer was lost the victim still holds an IKE_SA '
+                                                          f'towards it in state {to_b[0].state.name} (retransmission budget {c13.budget()}s)')
+    probes = [d for d in s.w.sent_log[n0:] if d.sender == 'a' and d.dst in s.c.addrs and d.data[18] == 37 and not d.data[19] & 0x20]
+    if not probes and not s.fails:
+        s.fail('other-peer-timers-starved', f'while sends to one peer failed, the victim did not probe its other, idle peer for {t:.0f}s '
+                                            f'(DPD interval {cfg["dpd"]}s)')
+    return s.fails, info, s
+
+
 def run_case(case):
+    if case.get('kind') == 'unreachable':
+        return unreachable_case(case)
     cfg = c09.mk_cfg(case['cfg'])
     cfg['dpd'] = 10
     third = third_cfg(cfg)
@@ -363,6 +411,9 @@ def trigger_grid_cases():
                 out.append({'cfg': {'dh': '19', 'mode': 'transport'}, 'final_side': 'c',
                             'ops': est + [trig[t1], trig[t2], ['deliver_pair', 'a', 'c', 0], trig[t3],
                                           ['deliver_pair', 'a', 'c', 0], ['deliver_pair', 'a', 'c', 0]]})
+    for when in ('handshake', 'acquire', 'dpd', 'rekey_ike', 'del_ike'):
+        for dt in (0.5, 1.0, 3.0):
+            out.append({'kind': 'unreachable', 'cfg': {'dh': '19', 'mode': 'transport'}, 'when': when, 'dt': dt, 'ops': []})
     return out
 
 
